@@ -49,7 +49,7 @@ from simkit.rng import seed_globals  # noqa: E402
 from simkit.world import InvalidScenario, Monitor, Violation, result, run_sim, seeded_uuid  # noqa: E402
 
 PROPERTY = "C19"
-RUNS = {"quick": 6000, "thorough": 300_000}
+RUNS = {"quick": 6000, "thorough": 3_000_000}
 WALL = {"quick": 50, "thorough": 1500}
 BATCH = {"quick": 50, "thorough": 300}
 RULE = (
